@@ -216,3 +216,15 @@ V("C13", "ops-leaf-one", PYR, "            if is_leaf:\n                is_live 
   "            if is_leaf:\n                is_live = True\n                ops = 1\n            else:\n                is_live = data[0][0] or data[1][0] or data[2][0] or data[3][0]\n                ops = data[0][1] + data[1][1] + data[2][1] + data[3][1]\n\n                if is_live:\n                    ops += 1\n\n            riter.set_data((is_live, ops))\n\n        return riter.result()[1]", "C13.R5")
 V("C13", "P-shift-scale", PYR, "                    x_eff = pos.x + self._apex.x * 2**pos.n\n                    y_eff = pos.y + self._apex.y * 2**pos.n", "                    scale = 1 << pos.n\n                    x_eff = pos.x + self._apex.x * scale\n                    y_eff = self._apex.y * scale + pos.y", "HOLDS")
 V("C13", "P-count-sum", PYR, "                count = data[0] + data[1] + data[2] + data[3]\n\n                # Only count", "                count = data[3] + data[2] + data[1] + data[0]\n\n                # Only count", "HOLDS")
+
+# ---------------------------------------------------------------- C14
+V("C14", "min-of-max", MERGE, "                min_value = min(min_values)", "                min_value = min(max_values)", "C14.R")
+V("C14", "no-min-value", MERGE, "self._pio.write_image(pos, merged, min_value=min_value, max_value=max_value)", "self._pio.write_image(pos, merged, max_value=max_value)", "C14.R2")
+V("C14", "swapped-header-keys", IMG, '                max_value = self._get_header_value_or_none(\n                    header=hdul[0].header, keyword="DATAMAX"\n                )', '                max_value = self._get_header_value_or_none(\n                    header=hdul[0].header, keyword="DATAMIN"\n                )', "C14.R1")
+V("C14", "drop-child", MERGE, "min_value, max_value = self._get_min_max_of_children([img0, img1, img2, img3])", "min_value, max_value = self._get_min_max_of_children([img0, img1, img2])", "C14.R2")
+V("C14", "range-of-merged", MERGE, "self._pio.write_image(pos, merged, min_value=min_value, max_value=max_value)", "self._pio.write_image(pos, merged, min_value=np.nanmin(merged.asarray()), max_value=np.nanmax(merged.asarray()))", "C14.R2")
+V("C14", "root-swapped", BLD, '                self.imgset.data_min = top_tile[0].header["DATAMIN"]\n                self.imgset.data_max = top_tile[0].header["DATAMAX"]', '                self.imgset.data_min = top_tile[0].header["DATAMAX"]\n                self.imgset.data_max = top_tile[0].header["DATAMIN"]', "C14.R")
+V("C14", "save-swapped", IMG, '                if min_value is not None:\n                    header["DATAMIN"] = min_value', '                if min_value is not None:\n                    header["DATAMIN"] = max_value', "C14.R")
+V("C14", "leaf-stale-range", PYR, "            self.write_image(pos, img, format=format or self._default_format)", "            self.write_image(pos, img, format=format or self._default_format, min_value=img.data_min, max_value=img.data_max)", "C14.R3")
+V("C14", "skip-none-children-wrong", MERGE, "                    if image.data_min is not None:\n                        min_values.append(image.data_min)", "                    if image.data_min:\n                        min_values.append(image.data_min)", "C14.R2")
+V("C14", "P-lookup-get", IMG, "        value = None\n        if keyword in header:\n            value = header[keyword]\n        return value", "        return header.get(keyword)", "HOLDS")
